@@ -198,8 +198,10 @@ def frontier_loop():
 
 
 def frontier_cases():
+    from contracts.common import replay_script
+
     out = []
-    kinds = ["stuck", "reverted", "panic", "fail-flag", "panic, probe already reported", "panic, executor shut down", "already visited", "new state"]
+    kinds = ["stuck", "reverted", "panic", "fail-flag", "fail-flag, raised in a nested frame", "panic, probe already reported", "panic, executor shut down", "already visited", "new state"]
     for kind in kinds:
 
         def harness(interp, kind=kind):
@@ -209,7 +211,10 @@ def frontier_cases():
             pre_ex = NS(call_sequence=["<call 1>"], block=NS(timestamp=pre_ts))
             fun_info = NS(contract_name="Token", sig="f()")
             out_err = None if kind in ("already visited", "new state") else "revert"
-            sub = NS(output=NS(error=out_err, data=b""), message=NS(fun_info=fun_info))
+            # a vm.assert* / fail() inside a nested frame ends the path at once: SEVM.run yields the state with the NESTED frame as its
+            # context (the FailCheatcode arm does not unwind), and only the message of the top-level target call carries a fun_info
+            nested = kind == "fail-flag, raised in a nested frame"
+            sub = NS(output=NS(error=out_err, data=b""), message=NS(fun_info=None if nested else fun_info))
             sub.is_stuck = lambda: kind == "stuck"
             sub.get_stuck_reason = lambda: "unsupported"
             appended, sliced = [], []
@@ -226,7 +231,7 @@ def frontier_cases():
                 if kind == "panic, executor shut down":
                     raise ShutdownError()
 
-            interp.contracts["halmos.__main__:is_global_fail_set"] = lambda i, a, k: kind == "fail-flag"
+            interp.contracts["halmos.__main__:is_global_fail_set"] = lambda i, a, k: kind.startswith("fail-flag")
             interp.contracts["halmos.__main__:get_state_id"] = lambda i, a, k: b"state-id"
             visited = {b"state-id"} if kind == "already visited" else set()
             next_exs = []
@@ -237,7 +242,7 @@ def frontier_cases():
             n0 = len(ctx.ghost_log)
             k, payload, yields = interp.exec_fragment(loop.body, env, qual="halmos.__main__:_compute_frontier#post-state")
             if k == "raise":
-                ctx.oblige(f"no-exception[{type(payload).__name__}]", z3.BoolVal(False), info={"msg": str(payload)[:200]})
+                ctx.oblige("a failing assertion in a nested frame of a target call is handled like any other (handed to the solver, the test FAILs), not an internal exception" if nested else f"no-exception[{type(payload).__name__}]", z3.BoolVal(False), info={"msg": str(payload)[:200]})
                 return
             ctx.oblige("the call is recorded: call sequence of the post-state = sequence of the pre-state + this call", z3.BoolVal(post.call_sequence == ["<call 1>", sub] and pre_ex.call_sequence == ["<call 1>"]))
             ctx.oblige("frame: the pre-state (a cached frontier state shared by sibling post-states and later tests) keeps its own call sequence; the post-state gets a new list", z3.BoolVal(pre_ex.call_sequence == ["<call 1>"] and post.call_sequence is not pre_ex.call_sequence))
@@ -248,6 +253,8 @@ def frontier_cases():
                 ctx.oblige("stuck call: logged as an error and not explored further", z3.BoolVal(dropped and not handled and any(e[0] == "error" for e in ctx.ghost_log[n0:])))
             elif kind == "reverted":
                 ctx.oblige("call reverted without an assertion failure: the state is dropped (a reverted transaction changes nothing)", z3.BoolVal(dropped and not handled))
+            elif nested:
+                ctx.oblige("a failing assertion in a nested frame of a target call is handled like any other (handed to the solver, the test FAILs), not an internal exception", z3.BoolVal(len(handled) == 1 and handled[0].get("ex") is post and dropped))
             elif kind in ("panic", "fail-flag", "panic, executor shut down"):
                 ok = len(handled) == 1 and handled[0].get("ex") is post and handled[0].get("path_id") == path_id0 + 1 and handled[0].get("panic_found") is kind.startswith("panic") and "Token.f()" in str(handled[0].get("description"))
                 ctx.oblige("assertion failure inside a target call: handed to the solver once, with a description naming the function; the reverted state is not explored further", z3.BoolVal(ok and dropped))
@@ -263,7 +270,7 @@ def frontier_cases():
                 if ok_ts:
                     ctx.oblige("timestamps never decrease along a call sequence (unsigned), for every previous timestamp", appended[0] == z3.UGE(ts, pre_ts), info={"cond": str(appended[0])[:100]})
 
-        out.append(Case(f"{PROP}/__main__._compute_frontier#post-state", kind, harness, replay=replay_timestamp if kind == "new state" else None, sources=("halmos.__main__:_compute_frontier",)))
+        out.append(Case(f"{PROP}/__main__._compute_frontier#post-state", kind, harness, replay=replay_timestamp if kind == "new state" else (replay_script("nested_assert_in_target.py", "Target.poke() { this.inner(); } inner() { vm.assertTrue(false); }, invariant depth 1") if kind.endswith("nested frame") else None), sources=("halmos.__main__:_compute_frontier",)))
 
     def harness_cache(interp):
         ctx = interp.ctx
